@@ -174,7 +174,10 @@ fn resp_events(rng: &mut StdRng, n: usize) -> Vec<String> {
         let big = i % 50 == 49;
         let usize_n = if big { rng.gen_range(600..3000) } else { 8 };
         let k = if big { rng.gen_range(usize_n / 2..usize_n) } else { rng.gen_range(0..6) };
-        let universe: Vec<usize> = (1..=usize_n).collect();
+        // every 7th case uses labels of 5-13 digits (the ICCMA labels of big instances), strictly increasing
+        // (TLC integers are 32-bit: labels stay below 2^31)
+        let scale: usize = if i % 7 == 3 { if big { [9_973usize, 100_003][i / 7 % 2] } else { [9_973usize, 100_003, 12_345_679, 200_000_033][i / 7 % 4] } } else { 1 };
+        let universe: Vec<usize> = (1..=usize_n).map(|x| x * scale + if scale > 1 { x % 97 } else { 0 }).collect();
         let mut labels: Vec<usize> = vec![];
         for _ in 0..k {
             let l = universe[rng.gen_range(0..universe.len())];
